@@ -75,7 +75,8 @@ class Built:
         if initialize:
             dsg = dsg.set_start_nodes({self.node[s] for s in desc.start})
             for ctype, cids in desc.constraints:
-                dsg = dsg.constrain_choices(getattr(ChoiceConstraintType, ctype), [self.choice[c] for c in cids])
+                dsg = dsg.constrain_choices(getattr(ChoiceConstraintType, ctype),
+                                            [self.choice[c] if c in self.choice else self.node[c] for c in cids])
         self.dsg = dsg
 
     # -- observation -------------------------------------------------------------------------------
@@ -311,6 +312,17 @@ def family_dvmet(tier='quick'):
     ]
     for i, dvs in enumerate(dv_sets):
         out.append(Desc(base_nodes, base_edges, ['A'], choices=ch, dvs=dvs, label=f'dv-{i}'))
+    # linked design-variable nodes: equal option counts / continuous / under different options / unequal counts
+    out.append(Desc(base_nodes, base_edges, ['A'], choices=ch, constraints=[('LINKED', ['dl1', 'dl2'])],
+                    dvs=[('dl1', 'B', None, ['x', 'y', 'z']), ('dl2', 'A', None, ['u', 'v', 'w'])], label='dv-linked-discrete'))
+    out.append(Desc(base_nodes, base_edges, ['A'], choices=ch, constraints=[('LINKED', ['dl1', 'dl2'])],
+                    dvs=[('dl1', 'B', (0.0, 1.0), None), ('dl2', 'A', (10.0, 30.0), None)], label='dv-linked-continuous'))
+    out.append(Desc(base_nodes, base_edges, ['A'], choices=ch, constraints=[('LINKED', ['dl1', 'dl2'])],
+                    dvs=[('dl1', 'P0', None, ['x', 'y']), ('dl2', 'P1', None, ['u', 'v'])], label='dv-linked-different-options'))
+    out.append(Desc(base_nodes, base_edges, ['A'], choices=ch, constraints=[('LINKED', ['dl1', 'dl2'])],
+                    dvs=[('dl1', 'B', None, ['x', 'y', 'z']), ('dl2', 'P1', None, ['u', 'v', 'w'])], label='dv-linked-one-conditional'))
+    out.append(Desc(base_nodes, base_edges, ['A'], choices=ch, constraints=[('LINKED', ['dl1', 'dl2'])],
+                    dvs=[('dl1', 'B', None, ['x', 'y', 'z']), ('dl2', 'A', None, ['u', 'v'])], label='dv-linked-unequal-counts'))
     mets = []
     k = 0
     for d in (None, -1, 1):
